@@ -513,9 +513,65 @@ def confirm_rowsum(eng):
     return eng
 
 
+def native_canon_order_check(tries=300, seed=0):
+    """REAL canonical_form on random small tableaux with tab_row_swap / tab_row_sum wrapped: inside canonical_form every tab_row_sum must
+    multiply the PIVOT generator (the first argument of the latest tab_row_swap, i.e. pivot[0]) INTO another row -> witness, else None"""
+    import importlib
+    import sys
+    import numpy as np
+    from refsem import tabref as R
+
+    stab = importlib.import_module(STABF)
+    tabm = importlib.import_module(SI.TAB_MOD)
+    saved = (stab.tab_row_swap, stab.tab_row_sum)
+    state = {"pivot": None, "bad": None}
+
+    def rec_swap(t, a, b):
+        if sys._getframe(1).f_code.co_name == "canonical_form":
+            state["pivot"] = int(a)
+        return saved[0](t, a, b)
+
+    def rec_sum(t, a, b):
+        if sys._getframe(1).f_code.co_name == "canonical_form" and state["bad"] is None and int(a) != state["pivot"]:
+            state["bad"] = (int(a), int(b), state["pivot"])
+        return saved[1](t, a, b)
+
+    rng = np.random.default_rng(seed)
+    stab.tab_row_swap, stab.tab_row_sum = rec_swap, rec_sum
+    try:
+        for t in range(tries):
+            n = 2 + t % 3
+            gs = R.gens_json(R.random_gens(n, rng))
+            table = np.array([list(x) + list(z) for x, z, r in gs], dtype=int)
+            phase = np.array([r for _, _, r in gs], dtype=int)
+            state.update(pivot=None, bad=None)
+            try:
+                stab.canonical_form(tabm.StabilizerTableau(table.copy(), phase.copy()))
+            except Exception:  # noqa: BLE001
+                pass
+            if state["bad"] is not None:
+                a, b, pv = state["bad"]
+                return {"function": CANON, "args": {"table": table.tolist(), "phase": phase.tolist()},
+                        "actual": f"tab_row_sum(tableau, {a}, {b}) while the pivot row is {pv}", "expected": f"tab_row_sum(tableau, {pv}, row_m)"}
+    finally:
+        stab.tab_row_swap, stab.tab_row_sum = saved
+    return None
+
+
 class CanonGroupTask(Task):
     def run(self):
-        return confirm_rowsum(super().run())
+        eng = confirm_rowsum(super().run())
+        need = [r for r in eng.results.values() if ".step.canonical_form." in r.name and
+                (r.status == "refuted" or (r.status == "undecided" and r.detail.startswith("RELAXED")))]
+        if need:
+            try:
+                wit = native_canon_order_check()
+            except Exception:  # noqa: BLE001
+                wit = None
+            for r in need:
+                if wit is not None:
+                    r.status, r.witness, r.replayed = "refuted", wit, True
+        return eng
 
 
 class CanonStab(SI.StabIn):
